@@ -284,7 +284,8 @@ def instr_xml(i):
         if i["value"] is not None:
             return '<xsl:number value="%s" format="%s"/>' % (xml_attr(expr_txt(i["value"])), xml_attr(i["format"]))
         cnt = ' count="%s"' % xml_attr(" | ".join(pattern_txt(p) for p in i["count"])) if i.get("count") else ""
-        return '<xsl:number level="%s"%s format="%s"/>' % (i.get("level", "single"), cnt, xml_attr(i["format"]))
+        frm = ' from="%s"' % xml_attr(" | ".join(pattern_txt(p) for p in i["from"])) if i.get("from") else ""
+        return '<xsl:number level="%s"%s%s format="%s"/>' % (i.get("level", "single"), cnt, frm, xml_attr(i["format"]))
     if k == "variable":
         return varlike_xml("variable", i)
     if k == "param":
@@ -336,8 +337,9 @@ def instr_tok(i):
     if k == "applyimports":
         return "( applyimports )"
     if k == "number":
-        return "( number %s %s ( %s ) %s )" % ("none" if i["value"] is None else expr_tok(i["value"]), i.get("level", "single"),
-                                               " ".join(expr_tok(p) for p in i.get("count", [])), enc(i["format"]))
+        return "( number %s %s ( %s ) %s ( %s ) )" % ("none" if i["value"] is None else expr_tok(i["value"]), i.get("level", "single"),
+                                                      " ".join(expr_tok(p) for p in i.get("count", [])), enc(i["format"]),
+                                                      " ".join(expr_tok(p) for p in i.get("from", [])))
     raise ValueError(k)
 
 
@@ -347,7 +349,7 @@ def attrset_xml(a):
 
 
 def attrset_tok(a):
-    return "( attrset %s ( %s ) %s )" % (enc(a["name"]), " ".join(enc(u) for u in a["uses"]), body_tok(a["body"]))
+    return "( attrset %s %d ( %s ) %s )" % (enc(a["name"]), a.get("prec", 0), " ".join(enc(u) for u in a["uses"]), body_tok(a["body"]))
 
 
 def key_xml(k):
@@ -373,33 +375,71 @@ def template_xml(t):
 
 
 def template_tok(t):
-    return "( template ( %s ) %s %s %s %d %s )" % (" ".join(expr_tok(p) for p in t["pats"]),
-                                                    "none" if t["name"] is None else enc(t["name"]),
-                                                    "none" if t["mode"] is None else enc(t["mode"]),
-                                                    "none" if t["prio"] is None else str(t["prio"]),
-                                                    t.get("prec", 0), body_tok(t["body"]))
+    return "( template ( %s ) %s %s %s %d %d %s )" % (" ".join(expr_tok(p) for p in t["pats"]),
+                                                       "none" if t["name"] is None else enc(t["name"]),
+                                                       "none" if t["mode"] is None else enc(t["mode"]),
+                                                       "none" if t["prio"] is None else str(t["prio"]),
+                                                       t.get("prec", 0), t.get("low", 0), body_tok(t["body"]))
 
 
 XSL_OPEN = '<xsl:stylesheet xmlns:xsl="http://www.w3.org/1999/XSL/Transform" version="1.0">'
 
 
 def stylesheet_modules(ss):
-    """[main, i1.xsl, i2.xsl, …]: the main module imports i1, i1 imports i2, …; a template of import precedence p lives
-    in module (nmods - p) (main has the highest precedence)"""
-    m = ss.get("imports", 0)
-    mods = []
-    for j in range(m + 1):
+    """[main, i1.xsl, i2.xsl, …].  ss["modules"][k] = {"imports": [file numbers], "includes": [file numbers]}; a template /
+    attribute set lives in file t["mod"].  xsl:import elements come first, xsl:include elements last."""
+    mods = ss.get("modules") or [{"imports": [], "includes": []}]
+    out_all = []
+    for k, m in enumerate(mods):
         out = XSL_OPEN
-        if j < m:
-            out += '<xsl:import href="i%d.xsl"/>' % (j + 1)
-        if j == 0:
+        out += "".join('<xsl:import href="i%d.xsl"/>' % j for j in m["imports"])
+        if k == 0:
             out += ('<xsl:strip-space elements="%s"/>' % " ".join(ss["strip"]) if ss.get("strip") else "")
-            out += "".join(key_xml(k) for k in ss.get("keys", []))
+            out += "".join(key_xml(x) for x in ss.get("keys", []))
             out += "".join(varlike_xml(g["k"], g) for g in ss["globals"])
-            out += "".join(attrset_xml(a) for a in ss.get("attrsets", []))
-        out += "".join(template_xml(t) for t in ss["templates"] if t.get("prec", m) == m - j)
-        mods.append(out + "</xsl:stylesheet>")
-    return mods
+        out += "".join(attrset_xml(a) for a in ss.get("attrsets", []) if a.get("mod", 0) == k)
+        out += "".join(template_xml(t) for t in ss["templates"] if t.get("mod", 0) == k)
+        out += "".join('<xsl:include href="i%d.xsl"/>' % j for j in m["includes"])
+        out_all.append(out + "</xsl:stylesheet>")
+    return out_all
+
+
+def plan_modules(r):
+    """a random import tree (+ at most one include); returns the module list and, per file, (precedence, low)"""
+    shape = r.choice(["A", "A>C", "A,B", "A>C,B"])
+    mods = [{"imports": [], "includes": []}]
+
+    def new():
+        mods.append({"imports": [], "includes": []})
+        return len(mods) - 1
+    a = new()
+    mods[0]["imports"].append(a)
+    if ">C" in shape:
+        c = new()
+        mods[a]["imports"].append(c)
+    if ",B" in shape:
+        b = new()
+        mods[0]["imports"].append(b)
+    if r.chance(1, 2):
+        host = r.choice([0, a])
+        inc = new()
+        mods[host]["includes"].append(inc)
+    # post-order numbering of the import tree; included files share the includer's numbers
+    prec = {}
+    counter = [0]
+
+    def visit(k):
+        lo = counter[0]
+        for j in mods[k]["imports"]:
+            visit(j)
+            # imports of an included file would count for the includer; none are generated
+        p = counter[0]
+        counter[0] += 1
+        prec[k] = (p, lo)
+        for j in mods[k]["includes"]:
+            prec[j] = (p, lo)
+    visit(0)
+    return mods, prec
 
 
 def stylesheet_xml(ss):
@@ -485,6 +525,10 @@ class Gen:
             return ("E", name, attrs, kids)
 
         rootel = elem(0)
+        if r.chance(1, 4):
+            # runs of same-named siblings (counters, keys and sort keys then have something to cache)
+            extra = [("E", r.choice(ENAMES[:2]), [("n", r.choice(VALUES))] if r.chance(1, 2) else [], []) for _ in range(r.range(2, 5))]
+            rootel = ("E", rootel[1], rootel[2], list(rootel[3]) + extra)
         rootel = ("E", "r", rootel[2], rootel[3])
         top = []
         if r.chance(1, 8):
@@ -754,7 +798,7 @@ class Gen:
     def attr_instr(self, env, depth, late=False):
         r = self.r
         name = [("l", r.choice(["k", "x", "id", "y"]))]
-        if r.chance(1, 5):
+        if r.chance(1, 5) and not self.fragment:
             name.append(("e", ("fn", "position", [])))
         i = {"k": "attribute", "name": name, "body": self.text_body(env, min(depth, 1))}
         if r.chance(1, 6):
@@ -768,8 +812,6 @@ class Gen:
         env = list(env)
         res = []
         n = r.range(1, 2 + self.size) if depth > 0 else r.range(1, 2)
-        if self.fragment:
-            in_elem = False
         if in_elem and sets_ok and self.sets and r.chance(1, 6):
             res.append({"k": "usesets", "names": r.shuffle(self.sets)[: r.range(1, len(self.sets))]})
             self.features.add("use-attribute-sets")
@@ -780,7 +822,27 @@ class Gen:
             res.extend(self.gen_instr(env, depth, tctx))
         if in_elem and r.chance(1, 12):
             res.append(self.attr_instr(env, depth, late=True))
+        self.reexecute(res)
         return res
+
+    def reexecute(self, res):
+        """RE-EXECUTION: run the same invocation again later in the same body, so that the templates / named templates
+        it reaches (and every per-instruction cache in them: xsl:number counters, key tables, sort keys, AVTs) are
+        executed a second or third time on the same nodes — in the same or in reverse order."""
+        r = self.r
+        if self.fragment or not r.chance(1, 4):
+            return
+        import copy as _copy
+        cand = [i for i, x in enumerate(res) if x["k"] in ("apply", "call") or (x["k"] == "foreach" and not x.get("sorts"))]
+        if not cand:
+            return
+        j = r.choice(cand)
+        for _ in range(r.weighted([(1, 4), (2, 1)])):
+            dup = _copy.deepcopy(res[j])
+            if dup["k"] in ("apply", "foreach") and not dup.get("sorts") and r.chance(1, 3):
+                dup["sorts"] = [(("fn", "position", []), True, True)]       # same nodes, reverse order
+            res.insert(r.range(j + 1, len(res)), dup)
+        self.features.add("re-execution")
 
     def gen_instr(self, env, depth, tctx):
         r = self.r
@@ -791,7 +853,8 @@ class Gen:
         if self.imports and tctx.get("rule") and not tctx.get("fe"):
             w.append(("applyimports", 3))
         if self.fragment:
-            w = [(k, x) for k, x in w if k in ("text", "valueof", "lre", "apply", "call", "foreach", "if", "choose", "xtext")]
+            w = [(k, x) for k, x in w if k in ("text", "valueof", "lre", "apply", "call", "foreach", "if", "choose", "xtext",
+                                                "copyof", "comment", "pi")]
         k = r.weighted(w)
         self.features.add(k)
         if k == "applyimports":
@@ -800,7 +863,7 @@ class Gen:
             v = r.weighted([(("fn", "position", []), 3), (("bin", "+", ("fn", "count", [self.down_path(env, 1)]), ("num", 1)), 3),
                             (("num", r.range(1, 60)), 3), (("bin", "+", ("fn", "string-length", []), ("num", 1)), 1),
                             (("bin", "*", ("fn", "last", []), ("num", r.range(1, 30))), 1)])
-            fmt = r.choice(["1", "01", "a", "A", "i", "I", "1.", "(a)", "001", "[I]"])
+            fmt = r.choice(["1", "01", "a", "A", "i", "I", "1.", "(a)", "001", "[I]", "1.a", "A-1", "1.1.1", "(1)[a]", "i.1-A:", "-", ""])
             if r.chance(1, 2):
                 return [{"k": "number", "value": v, "format": fmt}]
             count = []
@@ -810,7 +873,13 @@ class Gen:
                                    ("step", ctx, "child", "text", []), ("step", ctx, "child", "node", []),
                                    ("step", ("step", ctx, "child", ("name", r.choice(ENAMES + ["r"])), []), "child", "star", [])])
                          for _ in range(r.range(1, 2))]
-            return [{"k": "number", "value": None, "level": r.choice(["single", "single", "multiple", "any"]), "count": count, "format": fmt}]
+            frm = []
+            if r.chance(1, 3):
+                ctx = ("ctx",)
+                frm = [r.choice([("step", ctx, "child", ("name", r.choice(ENAMES + ["r"])), []), ("step", ctx, "child", "star", []),
+                                 ("step", ctx, "child", "text", []), ("step", ("step", ctx, "child", ("name", "r"), []), "child", "star", [])])]
+            return [{"k": "number", "value": None, "level": r.choice(["single", "single", "multiple", "any"]), "count": count, "format": fmt,
+                     "from": frm}]
         if k == "text":
             return [{"k": "text", "s": r.choice(["t", "ab", "x ", " y", "1", "-", "a b"])}]
         if k == "xtext":
@@ -820,7 +889,7 @@ class Gen:
             return [{"k": "valueof", "e": e}]
         if k == "lre":
             attrs = []
-            for an in r.shuffle(["id", "k", "z"])[: 0 if self.fragment else r.weighted([(0, 4), (1, 3), (2, 1)])]:
+            for an in r.shuffle(["id", "k", "z"])[: r.weighted([(0, 4), (1, 3), (2, 1)])]:
                 parts = []
                 for _ in range(r.range(1, 2)):
                     parts.append(("l", r.choice(["v", "a", "1 ", ""])) if r.chance(1, 2) else ("e", r.choice([self.gen_str, self.gen_num])(env, 1)))
@@ -945,7 +1014,7 @@ class Gen:
     def gen_stylesheet(self):
         r = self.r
         self.varctr = 0
-        self.imports = 0 if self.fragment or not r.chance(1, 4) else r.range(1, 2)
+        self.imports = 0 if self.fragment or not r.chance(1, 4) else 1
         self.modes = ["m1"] if r.chance(1, 3) else []
         nnamed = r.weighted([(0, 3), (1, 3), (2, 2)])
         self.named = ["t%d" % i for i in range(nnamed)]
@@ -1011,17 +1080,62 @@ class Gen:
             pats = [self.gen_pattern()] if r.chance(1, 5) else []
             templates.append({"pats": pats, "name": name, "mode": None, "prio": None,
                               "body": self.gen_template_body(genv, depth - 1, tctx, params)})
+        if not self.fragment and r.chance(1, 4):
+            # body pass + index pass: the whole document is processed again (and again, reversed) from the root rule
+            roots = [t for t in templates if t["pats"] == [("root",)]]
+            if roots:
+                mode = r.choice(self.modes) if self.modes and r.chance(1, 2) else None
+                sel = ("step", ("ctx",), "descendant", r.choice(["node", "star", ("name", r.choice(ENAMES))]), [])
+                for k in range(r.range(2, 3)):
+                    srt = [(("fn", "position", []), True, True)] if (k and r.chance(1, 2)) else []
+                    roots[0]["body"].append({"k": "apply", "select": sel, "mode": mode, "sorts": srt, "params": []})
+                self.features.add("index-pass")
+        if not self.fragment and self.named and r.chance(1, 5):
+            # two modes, one named template: every element reaches the same instructions twice
+            if "m1" not in self.modes:
+                self.modes.append("m1")
+            for mode in (None, "m1"):
+                templates.append({"pats": [("step", ("ctx",), "child", "star", [])], "name": None, "mode": mode, "prio": 6,
+                                  "body": [{"k": "call", "name": self.named[0], "params": []},
+                                           {"k": "apply", "select": None, "mode": mode, "sorts": [], "params": []}]})
+            roots = [t for t in templates if t["pats"] == [("root",)]]
+            for t in roots[:1]:
+                t["body"].append({"k": "apply", "select": None, "mode": None, "sorts": [], "params": []})
+                t["body"].append({"k": "apply", "select": None, "mode": "m1", "sorts": [], "params": []})
+            self.features.add("two-modes-one-template")
         templates = r.shuffle(templates)
-        for t in templates:
-            # named templates stay in the main module; rules are spread over the import chain
-            t["prec"] = self.imports if (t["name"] is not None or not self.imports) else r.range(0, self.imports)
+        modules = None
+        if self.imports:
+            modules, prec = plan_modules(r)
+            main_p, main_lo = prec[0]
+            for t in templates:
+                # named templates stay in the main module; rules are spread over the import tree and the included file
+                t["mod"] = 0 if t["name"] is not None else r.below(len(modules))
+                t["prec"], t["low"] = prec[t["mod"]]
+            extra = []
+            for a in attrsets:
+                a["mod"] = r.below(len(modules))
+                a["prec"] = prec[a["mod"]][0]
+                if r.chance(1, 2):
+                    # a second definition of the same name in another module: merged, higher precedence wins
+                    other = r.below(len(modules))
+                    if prec[other][0] != a["prec"]:
+                        body = []
+                        for _ in range(r.range(1, 2)):
+                            x = self.attr_instr(genv, 1)
+                            x.pop("nsempty", None)
+                            body.append(x)
+                        extra.append({"name": a["name"], "uses": [], "body": body, "mod": other, "prec": prec[other][0]})
+            attrsets = attrsets + extra
+            # Spec order = document order with imported modules first and included content last within its precedence
+            included = set(j for m in modules for j in m["includes"])
+            templates = sorted(templates, key=lambda t: (t["prec"], t["mod"] in included))
+            attrsets = sorted(attrsets, key=lambda a: (a["prec"], a["mod"] in included))
         strip = []
         if not self.fragment and r.chance(1, 4):
             strip = ["*"] if r.chance(1, 3) else r.shuffle(ENAMES + ["r"])[: r.range(1, 3)]
-        # Spec order = document order of the import tree: imported modules first
-        templates = sorted(templates, key=lambda t: t["prec"])
         return {"globals": globs, "templates": templates, "attrsets": attrsets, "keys": keys, "strip": strip,
-                "imports": self.imports}
+                "imports": self.imports, "modules": modules}
 
 
 def instr_kinds(ss):
